@@ -411,6 +411,7 @@ type Case struct {
 	Shape     interface{} // for known-finding predicates
 	MaxPaths  int
 	NonTrivial bool
+	noEscalation bool // set while the case is re-run with SMT-string names
 	Setup     func(x *OracleCtx) // extra assumptions before running
 }
 
@@ -533,6 +534,11 @@ func (w *Worker) RunCase(cs *Case, rep *Report) {
 		maxPaths = 4096
 	}
 	stopped := false
+	// needStrings: a path ended because the code under test looked inside an
+	// Int-coded name (its prefix, a substring, its case, ...): the case is then
+	// run once more with SMT-string names, which turns that look into a solver
+	// query instead of leaving it to the genericity assumption.
+	needStrings := false
 	body := func(c *interp.Ctx) {
 		cs.Prog.Atoms.Declare(c, nil)
 		x := &OracleCtx{W: w, C: c, Case: cs, Src: srcOf[cs.Prog], NLines: nlines, Res: map[string]*CompileResult{}}
@@ -570,6 +576,9 @@ func (w *Worker) RunCase(cs *Case, rep *Report) {
 			if r.Outcome == interp.PathTargetPanic {
 				rep.note(fmt.Sprintf("case %s: target panic: %s", cs.Name, r.Msg))
 			}
+			if r.Outcome == interp.PathInconclusive && cs.Prog.Atoms.Coded && !cs.noEscalation && strings.Contains(r.Msg, "Int-coded atom") {
+				needStrings = true
+			}
 			if (r.Outcome == interp.PathInconclusive || r.Outcome == interp.PathTargetPanic || r.Outcome == interp.PathFuel) && !stopped {
 				// Completion of a path the engine could not finish: one model
 				// of its path condition is run on the native build with the
@@ -597,6 +606,19 @@ func (w *Worker) RunCase(cs *Case, rep *Report) {
 	}
 	st, hit := w.E.Explore(w.S, maxPaths, body, done)
 	rep.addExplore(cs, st, hit)
+	if needStrings && !stopped && os.Getenv("VERIF_NO_ESCALATION") == "" {
+		// second run of the same case with SMT-string names (the oracles read
+		// the mode from the atom table at oracle time)
+		rep.escalated()
+		cs.Prog.Atoms.Coded = false
+		cs.noEscalation = true
+		name := cs.Name
+		cs.Name = name + " [string names]"
+		w.RunCase(cs, rep)
+		cs.Name = name
+		cs.Prog.Atoms.Coded = true
+		cs.noEscalation = false
+	}
 }
 
 // crossCheck: engine vs native on one model of the path (DESIGN.md §5.2).
@@ -863,6 +885,7 @@ type Report struct {
 	CrossOK      int
 	CrossSkipped int
 	Completions  int
+	Escalated    int // cases re-run with SMT-string names
 	EngineMism   []string
 	SkippedAfterEnough int
 	HistoryDep      int
@@ -966,6 +989,7 @@ func (r *Report) addSolver(s *interp.Solver) {
 }
 
 func (r *Report) completion()   { r.mu.Lock(); r.Completions++; r.mu.Unlock() }
+func (r *Report) escalated()    { r.mu.Lock(); r.Escalated++; r.mu.Unlock() }
 func (r *Report) crossOK()      { r.mu.Lock(); r.CrossOK++; r.mu.Unlock() }
 func (r *Report) crossSkipped() { r.mu.Lock(); r.CrossSkipped++; r.mu.Unlock() }
 // historyDependent records that the native build gave a different answer
@@ -1151,6 +1175,7 @@ func (r *Report) Finish(env *Env) int {
 			"traces_validated_against_impl": r.CrossOK,
 			"cross_check_skipped":           r.CrossSkipped,
 			"inconclusive_paths_completed_by_one_native_model": r.Completions,
+			"cases_rerun_with_smt_string_names":                r.Escalated,
 			"engine_mismatches":             len(r.EngineMism),
 			"native_answers_depending_on_process_history": r.HistoryDep,
 			"reachability_witnesses":        r.Witnesses,
